@@ -22,6 +22,10 @@ def run(model, rep, tier):
     A(lambda: sysrules.row_assembly(model, rep, sysrules.roles(model), "R2", ["Rail in", "Parent", "Vin (V)", "Rail out"]))
 
 
+def is_name_(node, name):
+    return isinstance(node, ast.Name) and node.id == name
+
+
 def always_returns(stmts):
     if not stmts:
         return False
@@ -81,7 +85,14 @@ def r_all(model, rep):
         if not good:
             ok = False
             rep.violation("R5", "system.System.rail_rep", "%s:%d" % (rel, line), "rail_rep() returns %s, not a table" % show(v), "returns " + show(v))
-    norails = [(c, v, l) for c, v, l in rets if any(x[0] == "ifnot" and "'Rail in' in" in x[1] for x in c)]
+    def no_rails_cond(c):
+        t = c[1].replace('"', "'").replace(" ", "")
+        return (c[0] == "ifnot" and t == "'Railin'in%s" % frame) or (c[0] == "if" and t in ("'Railin'notin%s" % frame, "not'Railin'in%s" % frame))
+    norails = [(c, v, l) for c, v, l in rets if any(no_rails_cond(x) for x in c)]
+    withrails = [(c, v, l) for c, v, l in rets if not any(no_rails_cond(x) for x in c)]
+    if any(v == ("name", frame) for c, v, l in withrails):
+        ok = False
+        rep.violation("R5", "system.System.rail_rep", where, "with rails defined the raw solve() table is returned instead of the rail report", "rails return")
     if not norails or any(v != ("name", frame) for c, v, l in norails):
         ok = False
         rep.violation("R5", "system.System.rail_rep", where, "without rails the solve() table itself is not what is returned", "no-rails return")
@@ -152,10 +163,30 @@ def r_all(model, rep):
         if not ok:
             rep.violation("R1", "system.System.rail_rep", where, "column '%s' does not list the %s of its cell" % (h, h.lower()), "label " + h)
         rep.instance("R1", "system.System.rail_rep label %s" % h, where, ok)
+    phn = None
+    for lp in loops:
+        if isinstance(lp.target, ast.Name) and rd.env.get(lp.target.id) == PH and isinstance(lp.iter, ast.Name):
+            phn = lp.iter.id
+    if phn:
+        pc = [c for c, row, col, v, l in rd.updates if row[0] == "dict" and col == "Phase"]
+        good = bool(pc) and any(x[0] == "if" and x[1].replace('"', "'").replace(" ", "") in ("%s!=['']" % phn, "['']!=%s" % phn) for x in pc[0]) or \
+            (bool(pc) and any(x[0] == "ifnot" and x[1].replace('"', "'").replace(" ", "") in ("%s==['']" % phn, "['']==%s" % phn) for x in pc[0]))
+        if not good:
+            rep.violation("R1", "system.System.rail_rep", where, "the Phase column is not added exactly when phases are reported", "phase column condition")
+        rep.instance("R1", "system.System.rail_rep Phase column present iff phases", where, good)
+        # the phase list is the table's phases without the '' of the average row
+        rm = [x for x in ast.walk(fn) if isinstance(x, ast.If) and ast.unparse(x.test).replace('"', "'").replace(" ", "") == "''in%s" % phn
+              and len(x.body) == 1 and ast.unparse(x.body[0]).replace('"', "'").replace(" ", "") == "%s.remove('')" % phn]
+        src_ok = any(isinstance(x, ast.Assign) and is_name_(x.targets[0], phn) and ast.unparse(x.value).replace('"', "'").replace(" ", "") == "%s['Phase'].unique().tolist()" % frame for x in ast.walk(fn))
+        if not rm or not src_ok:
+            rep.violation("R1", "system.System.rail_rep", where, "the phases reported are not 'the distinct phases of the solve() table without the empty phase of the average row'", "phase list")
+        rep.instance("R1", "system.System.rail_rep phase list", where, bool(rm) and src_ok)
     # ---- R3 warnings union
     wvar = headers["Warnings"][1]
     apps = rd.appends.get(wvar, [])
     ok = bool(apps)
+    if not apps:
+        rep.violation("R3", "system.System.rail_rep", where, "nothing is ever appended to the Warnings column", "warnings never appended")
     for conds, d, line in apps:
         core = d
         if core[0] == "join":
@@ -169,6 +200,10 @@ def r_all(model, rep):
             elif core[0] == "removed":
                 if core[2] != ("const", ""):
                     break
+                rc = [c for c in core[3] if c not in conds]
+                if not (len(rc) == 1 and rc[0][0] == "if" and rc[0][1].replace('"', "'").replace(" ", "").startswith("''in")):
+                    ok = False
+                    rep.violation("R3", "system.System.rail_rep", "%s:%d" % (rel, line), "the empty text is removed from the warning set under %s, expected: when it is present" % ([c[1] for c in rc] or "no condition"), "empty removal condition")
                 core = core[1]
             elif core[0] == "sel":
                 seen_sel = core
